@@ -22,13 +22,14 @@ META = {
             "payload is a function of (edge,face)); necessity of that hypothesis by a refuted example; EdgePos::operator< strict total order given distinct "
             "collisionIds and canonical buckets for locked runs; ReorderHalfedges erases per-triangle slot rotation (unique-minimum hypothesis, shown necessary); "
             "BatchBoolean pop order unique for every heap layout; distinct-slot writes commute; composition. The translator scans src/ for every "
-            "tbb::combinable/combine_each, AtomicAdd, concurrent container, mutex append and task_group (40 sites) and fails all_combines_normalised when a "
+            "tbb::combinable/combine_each, AtomicAdd, concurrent container, mutex append and task_group (about 40 sites) and fails all_combines_normalised when a "
             "site has no recognised normalisation. The END-TO-END claim is explored, not proved: byte hashes of all MeshGL64 fields / ToPolygons / Triangulate "
             "of threshold-straddling programs must agree between seq, par (1,2,3,5,8,16 threads x reps) and sim (64/2000 seeds) builds.",
     "note": "Named gaps: (1) AppendWholeEdges slot order -> Face2Tri start: only the 3-edge face case is proved, triangulation's independence from slot order "
             "is NOT proved; (2) Winding03_ component representative depends on union-find roots; (3) whole-program determinism is exploration only. "
-            "Trusted: Coq kernel, the translator's regex rules, g++/TBB, FNV hash of the exported arrays. Findings on the pinned tree: Hull (quickhull slot "
-            "cursor), CalculateCurvature (atomic floating-point sums), LevelSet (vertex/triangle cursors) are schedule dependent.",
+            "Trusted: Coq kernel, the translator's regex rules, g++/TBB, FNV hash of the exported arrays. Findings made by this check: Hull (quickhull slot "
+            "cursor; fixed 5855daa0), CalculateCurvature (atomic floating-point sums; fixed 2d2f6599), LevelSet (vertex/triangle cursors; known finding "
+            "levelset-cursor-order, still schedule dependent).",
 }
 
 ROOT = vp.ROOT
@@ -79,13 +80,8 @@ PROGRAMS = [
     ("tri60", "tri", 60, 0, 0, "q", True, "Triangulate small comb"),
 ]
 
-# which program exposes which flagged site (key of the violation)
-FLAG_PROGRAMS = {
-    "hull-slot-cursor-order": ["hull3k", "hull20k", "hullin"],
-    "curvature-atomic-fp-sum": ["curv160"],
-    "levelset-cursor-order": ["ls44", "ls64", "ls30"],
-}
-PROGRAM_KEY = {p: k for k, ps in FLAG_PROGRAMS.items() for p in ps}
+# which program KIND exposes which flagged call site (one violation key per call site, whatever the program size)
+KIND_KEY = {"hull": "hull-slot-cursor-order", "curv": "curvature-atomic-fp-sum", "levelset": "levelset-cursor-order"}
 
 
 def load_translator():
@@ -239,7 +235,7 @@ def run(cx):
     pmap = {p[0]: p for p in progs}
     found_keys = set()
     for pid, (name, rep, h, h0, df) in sorted(diffs.items()):
-        key = PROGRAM_KEY.get(pid, "hash-differs-" + pmap[pid][1])
+        key = KIND_KEY.get(pmap[pid][1], "hash-differs-" + pmap[pid][1])
         found_keys.add(key)
         cx.violation(key, "program %s (%s): export differs between seq build and %s (rep %d): fields %s; %d distinct hashes over %d runs" % (
             pid, pmap[pid][7], name, rep, ",".join(df), len(per_prog[pid]["distinct_hashes"]), per_prog[pid]["configs"]),
